@@ -434,22 +434,28 @@ class Sampler():
 
             if not self.explored:
 
-                if ((self.n_update_iter >= self.n_update or
-                     self.n_like_iter >= self.n_like_new_bound) and
-                        np.sum(self.shell_n) > self.n_live):
-                    self.add_bound(verbose=verbose)
-                    self.n_update_iter = 0
-                    self.n_like_iter = 0
-                    if self.filepath is not None:
-                        self.write(self.filepath, overwrite=True)
+                # If the sampler was resumed from a checkpoint written after
+                # the last batch of the exploration phase but before the
+                # exploration phase was wrapped up, don't add another batch.
+                if np.sum(self.shell_n) == 0 or not self.f_live <= f_live:
 
-                self.n_update_iter += self.add_samples(-1, verbose=verbose)
-                self.n_like_iter += self.n_batch
-                if self.filepath is not None:
-                    # Write the complete file if this is the first batch.
-                    if self.n_like == self.n_batch:
-                        self.write(self.filepath, overwrite=True)
-                    self.write_shell_update(self.filepath, -1)
+                    if ((self.n_update_iter >= self.n_update or
+                         self.n_like_iter >= self.n_like_new_bound) and
+                            np.sum(self.shell_n) > self.n_live):
+                        self.add_bound(verbose=verbose)
+                        self.n_update_iter = 0
+                        self.n_like_iter = 0
+                        if self.filepath is not None:
+                            self.write(self.filepath, overwrite=True)
+
+                    self.n_update_iter += self.add_samples(
+                        -1, verbose=verbose)
+                    self.n_like_iter += self.n_batch
+                    if self.filepath is not None:
+                        # Write the complete file if this is the first batch.
+                        if self.n_like == self.n_batch:
+                            self.write(self.filepath, overwrite=True)
+                        self.write_shell_update(self.filepath, -1)
 
                 if self.f_live <= f_live:
 
